@@ -33,8 +33,23 @@ class NumberLoop(PassInv):
                 z3.And(0 <= j, j < to_z3(i)), to_z3(lst.f(j)) == EC(self.pass_key(fo, j)))
 
 
+def directed_catfc(test):
+    """concrete forecasts (conventions of rt/oracles_catfc.catfc_test): empty synthetic catalogs among non-empty ones, empty
+    and non-empty observations, all inside the sampled cells"""
+    def fam():
+        g = {'nx': 2, 'ny': 2, 'dh': 1.0, 'x0': 0.0, 'y0': 0.0, 'mags': [4.0, 5.0, 6.0]}
+        out = []
+        for syn in ([[], [[0, 0]], [[1, 1], [1, 2]]], [[[0, 0], [0, 1], [2, 2], [2, 0]], [], []], [[[3, 1]] * 3 + [[0, 0]], [[1, 0]]]):
+            cells = sorted({c for ev in syn for c, _ in ev})
+            for obs in ([], [[cells[0], 0]], [[cells[0], 0], [cells[-1], 1], [cells[0], 2]]):
+                out.append(('catfc_test', dict(test=test, grid=g, synthetic=syn, observed=obs, source='list')))
+        return out
+    return staticmethod(fam)
+
+
 def number_case(apply_filters):
     class NT:
+        directed = directed_catfc('number_test')
         qualname = CE + 'number_test'
         case = 'list-backed catalog forecast, apply_filters=%s' % apply_filters
         properties = ('C10',)
@@ -289,3 +304,289 @@ def spatial_case(apply_filters):
 
 for _af in (False, True):
     REG.add(spatial_case(_af))
+
+
+# ---------------------------------------------------------------------------------------------------
+# catalog magnitude test: one statistic per NON-EMPTY synthetic catalog (empty ones are skipped), in catalog order
+# ---------------------------------------------------------------------------------------------------
+from pyvc.lib import LOG10
+
+MCF = z3.Function('magnitude_counts_of', CatSort, z3.IntSort(), z3.RealSort())
+
+
+@method('catalog', 'magnitude_counts')
+def _cat_magnitude_counts(L, cat, *a, **k):
+    n1 = L.ctx.ghost['n_mags']
+    key = cat.key
+    i = z3.Int('i!mc')
+    L.ctx.fact(z3.ForAll([i], MCF(key, i) >= 0, patterns=[MCF(key, i)]))
+    return Arr((n1,), lambda ix: MCF(key, to_z3(ix[0])), 'float64')
+
+
+def d_statistic(counts, size, union, n_union, n_obs, n_mags):
+    """sum_k (log10(union_k * n_obs / n_union + 1) - log10(counts_k * n_obs / size + 1))^2"""
+    def term(k):
+        a = LOG10(to_real(union.f((k,))) * (n_obs / n_union) + 1)
+        b = LOG10(to_real(counts(k)) * (n_obs / size) + 1)
+        return (a - b) * (a - b)
+    return _rsum(term, n_mags)
+
+
+class MagnitudeLoop(PassInv):
+    """test_distribution holds the statistics of the non-empty catalogs seen so far, in catalog order: the statistic of
+    catalog s (if it has events) sits at index #{t < s : catalog t has events}; the length is #{t < i : catalog t has events}"""
+
+    def havoc(self, I, fr, i, it):
+        self.ENT = I.ctx.fresh_fun('entry', z3.IntSort(), z3.RealSort())
+        self.LEN = I.ctx.fresh_int('entries')
+        ENT = self.ENT
+        fr.locals['test_distribution'] = SymList(self.LEN, lambda j: ENT(to_z3(j)), 'test_distribution')
+        for nm in ('mag_counts', 'n_events', 'scale', 'catalog_histogram'):
+            fr.locals.pop(nm, None)
+
+    def size(self, I, fo, s):
+        return _rsum(lambda k: MCF(self.pass_key(fo, s), k), I.ctx.ghost['n_mags'])
+
+    def nonempty_count(self, I, fo, upto):
+        t = z3.Int('i!cnt')
+        return CNT(z3.Lambda([t], self.size(I, fo, t) != 0), to_z3(upto))
+
+    def stat(self, I, fr, fo, s):
+        union = fr.locals['union_histogram']
+        return d_statistic(lambda k: MCF(self.pass_key(fo, s), k), self.size(I, fo, s), union,
+                           to_real(fr.locals['n_union_events']), to_real(fr.locals['n_obs']), I.ctx.ghost['n_mags'])
+
+    def inv(self, I, fr, i, it):
+        yield from PassInv.inv(self, I, fr, i, it)
+        fo = self.forecast(it)
+        lst = fr.locals['test_distribution']
+        n_l = to_z3(lst.n) if isinstance(lst, SymList) else z3.IntVal(len(lst))
+        yield 'one entry per non-empty catalog seen', n_l == self.nonempty_count(I, fo, i)
+        if isinstance(lst, list):
+            return
+
+        def clause(s):
+            return z3.Implies(self.size(I, fo, s) != 0, to_real(lst.f(self.nonempty_count(I, fo, s))) == self.stat(I, fr, fo, s))
+        if self.mode == 'prove':
+            s = I.ctx.fresh_int('s!sk')
+            self.sk = s
+            cur = simp(to_z3(i) - 1)
+            yield 'entries of earlier catalogs are kept in place', z3.Implies(z3.And(0 <= s, s < cur), clause(s))
+            yield 'a non-empty catalog appends its statistic', z3.Implies(cur >= 0, clause(cur))
+        else:
+            s = z3.Int('s!inv')
+            yield 'spec', z3.ForAll([s], z3.Implies(z3.And(0 <= s, s < to_z3(i)), clause(s)))
+
+    def at_exit(self, I, fr, it):
+        PassInv.at_exit(self, I, fr, it)
+        # L3b_count_pos at the catalog the precondition names: the list is not empty
+        fo = self.forecast(it)
+        J = to_z3(fo.fields['n_cat'])
+        j0 = I.ctx.ghost.get('some_nonempty_catalog')
+        if j0 is not None:
+            I.ctx.fact(z3.Implies(z3.And(0 <= j0, j0 < J, self.size(I, fo, j0) != 0), self.nonempty_count(I, fo, J) >= 1), lemma=True)
+            I.used_lemmas.add('L3.count_pos')
+
+    def step_lemmas(self, I, fr, i, it):
+        fo = self.forecast(it)
+        t = z3.Int('i!cnt')
+        B = z3.Lambda([t], self.size(I, fo, t) != 0)
+        # L0_count_unfold at i, L3_count_prefix_lt / _mono for the goal's catalog s
+        yield CNT(B, to_z3(i) + 1) == CNT(B, to_z3(i)) + z3.If(self.size(I, fo, i) != 0, 1, 0)
+        s = self.sk
+        yield z3.Implies(z3.And(0 <= s, s < to_z3(i), self.size(I, fo, s) != 0), CNT(B, s) < CNT(B, to_z3(i)))
+        I.used_lemmas.add('L0.count_unfold')
+        I.used_lemmas.add('L3.count_prefix')
+
+
+def magnitude_case(apply_filters):
+    loop = MagnitudeLoop()
+
+    class MT:
+        directed = directed_catfc('magnitude_test')
+        qualname = CE + 'magnitude_test'
+        case = 'list-backed catalog forecast with expected rates, apply_filters=%s' % apply_filters
+        properties = ('C10',)
+        loops = {0: loop}
+
+        def params(c):
+            from pyvc.core import Lam
+            n1 = c.int('n_mags')
+            c.ctx.assume(n1 >= 1)
+            c.ctx.ghost['n_mags'] = n1
+            j0 = c.int('some_nonempty_catalog')
+            c.ctx.ghost['some_nonempty_catalog'] = j0
+            union = c.arr('union_magnitude_histogram', 'float64', n=n1)
+            mags = c.arr('magnitudes', 'float64', n=n1)
+            exp = c.obj(None, magnitude_counts=Lam(lambda *a, **k: union))
+            fo, J, nE = _list_forecast(c, apply_filters, min_magnitude=c.real('min_mw'), expected_rates=exp,
+                                       region=c.obj(None, name='region', magnitudes=mags))
+            obs_hist = c.arr('observed_magnitude_histogram', 'float64', n=n1)
+            obs = c.obj(None, event_count=c.int('n_obs_events'), name='obs', magnitude_counts=Lam(lambda *a, **k: obs_hist))
+            return dict(forecast=fo, observed_catalog=obs, verbose=False, _v=dict(J=J, union=union, obs=obs_hist, n1=n1, j0=j0))
+
+        def requires(c, forecast, observed_catalog, verbose, _v):
+            union, obs, n1, J, j0 = _v['union'], _v['obs'], _v['n1'], _v['J'], _v['j0']
+            i = z3.Int('i!rq')
+            key = (lambda k: FILT(SRC(k))) if apply_filters else (lambda k: SRC(k))
+            size_j0 = _rsum(lambda k: MCF(key(j0), k), n1)
+            return [observed_catalog.fields['event_count'] >= 0,
+                    z3.ForAll([i], z3.Implies(z3.And(0 <= i, i < n1), union.f((i,)) >= 0), patterns=[union.f((i,))]),
+                    z3.ForAll([i], z3.Implies(z3.And(0 <= i, i < n1), obs.f((i,)) >= 0), patterns=[obs.f((i,))]),
+                    # the union histogram is the mean of the synthetic histograms (C13): it is not empty, and then some
+                    # synthetic catalog has an event
+                    _rsum(lambda k: union.f((k,)), n1) > 0, 0 <= j0, j0 < J, size_j0 != 0,
+                    # a non-empty observed catalog has a non-empty histogram (C03: total == number of events)
+                    z3.Implies(observed_catalog.fields['event_count'] > 0, _rsum(lambda k: obs.f((k,)), n1) > 0)]
+
+        def ensures(c, r, forecast, observed_catalog, verbose, _v):
+            union, obs, n1, J, j0 = _v['union'], _v['obs'], _v['n1'], _v['J'], _v['j0']
+            key = (lambda k: FILT(SRC(k))) if apply_filters else (lambda k: SRC(k))
+            n_ev = observed_catalog.fields['event_count']
+            yield 'returns a result object', z3.BoolVal(isinstance(r, Obj))
+            st, os_, q, td = (r.fields.get(k) for k in ('status', 'observed_statistic', 'quantile', 'test_distribution'))
+            if st == 'not-valid':
+                yield "'not-valid' only for an empty observed catalog", n_ev == 0
+                yield "'not-valid': no statistic and no quantile", z3.BoolVal(os_ is None and q == (None, None))
+                return
+            yield 'status normal', z3.BoolVal(st == 'normal')
+            yield 'a statistic is reported only for a non-empty observed catalog', n_ev != 0
+            n_obs = _rsum(lambda k: obs.f((k,)), n1)
+            n_union = _rsum(lambda k: union.f((k,)), n1)
+            def obs_term(k):
+                a = LOG10(to_real(union.f((k,))) * (n_obs / n_union) + 1)
+                b = LOG10(to_real(obs.f((k,))) + 1)
+                return (a - b) * (a - b)
+            yield 'observed statistic == sum_k (log10(scaled union_k + 1) - log10(observed_k + 1))^2', \
+                to_real(os_) == _rsum(obs_term, n1)
+            size = lambda s: _rsum(lambda k: MCF(key(s), k), n1)
+            t = z3.Int('i!cnt')
+            nonempty_before = lambda s: CNT(z3.Lambda([t], size(t) != 0), to_z3(s))
+            yield 'test distribution is a list', z3.BoolVal(isinstance(td, SymList))
+            if isinstance(td, SymList):
+                yield 'one entry per synthetic catalog that has events (catalogs without events are skipped)', \
+                    to_z3(td.n) == nonempty_before(J)
+                s = c.ctx.fresh_int('s!sk')
+                yield 'the entry of a non-empty catalog is its statistic, entries are in catalog order', z3.Implies(
+                    z3.And(0 <= s, s < J, size(s) != 0),
+                    to_real(td.f(nonempty_before(s))) == d_statistic(lambda k: MCF(key(s), k), size(s), union, n_union, n_obs, n1))
+            calls = c.calls(GQ)
+            yield 'quantiles come from get_quantiles (one call)', z3.BoolVal(len(calls) == 1)
+            if calls:
+                loc, out = calls[0][1], calls[0][2]
+                yield 'quantile == (delta_1, delta_2)', z3.BoolVal(isinstance(q, tuple) and len(q) == 2 and q[0] is out[0] and q[1] is out[1])
+                yield 'evaluated at the observed statistic', z3.BoolVal(loc['obs_count'] is os_)
+    MT.__name__ = 'CatalogMagnitudeTest_%s' % apply_filters
+    return MT
+
+
+for _af in (False, True):
+    REG.add(magnitude_case(_af))
+
+
+# ---------------------------------------------------------------------------------------------------
+# catalog pseudo-likelihood test
+# ---------------------------------------------------------------------------------------------------
+def plh_spec(counts, rates, E, n_cells):
+    """pseudo-likelihood of a gridded catalog: -E without events, else sum_{g>0} g*log(rate) - E"""
+    total = _rsum(counts, n_cells)
+    ll = _rsum(lambda i: z3.If(to_real(counts(i)) != 0, to_real(counts(i)) * LOG(to_real(rates.f((i,)))), z3.RealVal(0)), n_cells)
+    return z3.If(total == 0, -E, ll - E)
+
+
+class PLLoop(PassInv):
+    def havoc(self, I, fr, i, it):
+        self.VAL = I.ctx.fresh_fun('entry_value', z3.IntSort(), z3.RealSort())
+        VAL = self.VAL
+        fr.locals['test_distribution'] = SymList(to_z3(i), lambda s: VAL(to_z3(s)), 'test_distribution')
+        for nm in ('gridded_cat', 'plh', '_'):
+            fr.locals.pop(nm, None)
+
+    def inv(self, I, fr, i, it):
+        yield from PassInv.inv(self, I, fr, i, it)
+        fo = self.forecast(it)
+        lst = fr.locals['test_distribution']
+        n_l = to_z3(lst.n) if isinstance(lst, SymList) else z3.IntVal(len(lst))
+        yield 'one entry per catalog seen', n_l == to_z3(i)
+        if isinstance(lst, list):
+            return
+        rates, E = fr.locals['forecast_mean_spatial_rates'], to_real(fr.locals['expected_cond_count'])
+        n_cells = I.ctx.ghost['n_cells']
+        clause = lambda s: to_real(lst.f(s)) == plh_spec(lambda a: SCF(self.pass_key(fo, s), a), rates, E, n_cells)
+        if self.mode == 'prove':
+            s = I.ctx.fresh_int('s!sk')
+            cur = simp(to_z3(i) - 1)
+            yield 'earlier entries are kept', z3.Implies(z3.And(0 <= s, s < cur), clause(s))
+            yield 'the new entry is the pseudo-likelihood of its catalog', z3.Implies(cur >= 0, clause(cur))
+        else:
+            s = z3.Int('s!inv')
+            yield 'spec', z3.ForAll([s], z3.Implies(z3.And(0 <= s, s < to_z3(i)), clause(s)), patterns=[self.VAL(s)])
+
+
+def pl_case(apply_filters):
+    loop = PLLoop()
+
+    class PT:
+        directed = directed_catfc('pseudolikelihood_test')
+        qualname = CE + 'pseudolikelihood_test'
+        case = 'list-backed catalog forecast with expected rates, apply_filters=%s' % apply_filters
+        properties = ('C10',)
+        loops = {0: loop}
+
+        def params(c):
+            from pyvc.core import Lam
+            n0 = c.int('n_cells')
+            c.ctx.assume(n0 >= 1)
+            c.ctx.ghost['n_cells'] = n0
+            rates = c.arr('mean_spatial_rates', 'float64', n=n0)
+            E = c.real('expected_cond_count')
+            exp = c.obj(None, sum=Lam(lambda *a, **k: E), spatial_counts=Lam(lambda *a, **k: rates))
+            fo, J, nE = _list_forecast(c, apply_filters, min_magnitude=c.real('min_mw'), expected_rates=exp,
+                                       region=c.obj(None, name='region'))
+            obs_counts = c.arr('observed_spatial_counts', 'float64', n=n0)
+            obs = c.obj(None, event_count=c.int('n_obs_events'), name='obs', spatial_counts=Lam(lambda *a, **k: obs_counts))
+            return dict(forecast=fo, observed_catalog=obs, verbose=False, _v=dict(J=J, rates=rates, E=E, obs=obs_counts, n0=n0))
+
+        def requires(c, forecast, observed_catalog, verbose, _v):
+            rates, obs, n0 = _v['rates'], _v['obs'], _v['n0']
+            i = z3.Int('i!rq')
+            n_ev = observed_catalog.fields['event_count']
+            return [n_ev >= 0,
+                    z3.ForAll([i], z3.Implies(z3.And(0 <= i, i < n0), rates.f((i,)) >= 0), patterns=[rates.f((i,))]),
+                    z3.ForAll([i], z3.Implies(z3.And(0 <= i, i < n0), obs.f((i,)) >= 0), patterns=[obs.f((i,))]),
+                    # observed events only in cells some synthetic catalog sampled (the 'undersampled' path is bounded only)
+                    z3.ForAll([i], z3.Implies(z3.And(0 <= i, i < n0, obs.f((i,)) > 0), rates.f((i,)) > 0), patterns=[obs.f((i,))]),
+                    # gridding counts every event once (C03): a non-empty observed catalog has a non-empty grid
+                    z3.Implies(n_ev > 0, _rsum(lambda k: obs.f((k,)), n0) > 0)]
+
+        def ensures(c, r, forecast, observed_catalog, verbose, _v):
+            J, rates, E, obs, n0 = _v['J'], _v['rates'], _v['E'], _v['obs'], _v['n0']
+            key = (lambda k: FILT(SRC(k))) if apply_filters else (lambda k: SRC(k))
+            n_ev = observed_catalog.fields['event_count']
+            if r is None:
+                yield 'no result only for an empty observed catalog', n_ev == 0
+                return
+            yield 'returns a result object', z3.BoolVal(isinstance(r, Obj))
+            yield 'a result is returned only for a non-empty observed catalog', n_ev != 0
+            st, os_, q, td = (r.fields.get(k) for k in ('status', 'observed_statistic', 'quantile', 'test_distribution'))
+            yield 'status normal', z3.BoolVal(st == 'normal')
+            yield 'observed statistic == pseudo-likelihood of the observed catalog', \
+                to_real(os_) == plh_spec(lambda a: obs.f((a,)), rates, E, n0)
+            yield 'test distribution is an array', z3.BoolVal(isinstance(td, Arr) and td.ndim == 1)
+            if isinstance(td, Arr):
+                yield 'one entry per synthetic catalog', to_z3(td.shape[0]) == J
+                s = c.ctx.fresh_int('s!sk')
+                yield 'entry s == pseudo-likelihood of synthetic catalog s', z3.Implies(
+                    z3.And(0 <= s, s < J), to_real(td.f((s,))) == plh_spec(lambda a: SCF(key(s), a), rates, E, n0))
+            calls = c.calls(GQ)
+            yield 'quantiles come from get_quantiles (one call)', z3.BoolVal(len(calls) == 1)
+            if calls:
+                loc, out = calls[0][1], calls[0][2]
+                yield 'quantile == (delta_1, delta_2)', z3.BoolVal(isinstance(q, tuple) and len(q) == 2 and q[0] is out[0] and q[1] is out[1])
+                yield 'evaluated at the observed statistic', z3.BoolVal(loc['obs_count'] is os_)
+    PT.__name__ = 'CatalogPLTest_%s' % apply_filters
+    return PT
+
+
+for _af in (False, True):
+    REG.add(pl_case(_af))
